@@ -65,6 +65,7 @@ type trUnit struct {
 	chanTypes map[string]string // "recv" / "send" / "both" -> Lean type of a channel of that direction (default Unit)
 	queues   []string           // source texts of buffered channels the code uses as bounded queues (`GoQueue`)
 	constPtr []string           // pointer parameters that are only read: passed by value
+	scanners []string           // variables that are `*bufio.Scanner`s: the list of the lines still to come (`for v.Scan() { … v.Text() … }`)
 }
 
 type trEffect struct {
@@ -169,6 +170,20 @@ var trUnits = []trUnit{
 			"h.Shutdown":      {field: "shutdowns", owner: "baseHandler", types: []string{"Unit"}}},
 		bufVars: []string{"h.receiveBuf"},
 		funcs:   []string{"baseHandler.handleHiddenMessage", "baseHandler.handleMessage", "baseHandler.Write"}},
+	{ns: "KnownHosts", pkgDir: "internal/ssh/client", panics: true,
+		structs: map[string][]string{"KnownHostsCallback": {"knownHostsPath"}, "unknownHost": {"server", "remote", "hostLine", "ipLine"}},
+		skip:    []string{"newFd.Close", "oldFd.Close", "unknown.responseCh"},
+		subst: map[string]string{"os.O_CREATE|os.O_TRUNC|os.O_WRONLY": "GoOpenMode.trunc", "os.O_RDONLY|os.O_CREATE": "GoOpenMode.rdcreate",
+			"unknown.remote.String()": "unknown.remote"},
+		callExt: map[string]string{"knownhosts.Normalize": "normalizeAddr", "bufio.NewScanner": "scanLines"},
+		effects: map[string]trEffect{
+			"os.OpenFile":       {op: "GoFOp.open %0 %1", res: []string{"%0"}},
+			"os.Open":           {op: "GoFOp.open %0 GoOpenMode.rdonly", res: []string{"%0"}},
+			"newFd.WriteString": {op: "GoFOp.write %r %0", res: []string{"(GoLen.len %0)"}},
+			"os.Rename":         {op: "GoFOp.rename %0 %1"}},
+		effectField: "ops", effectOwner: "KnownHostsCallback", effectType: "GoFOp",
+		scanners: []string{"scanner"},
+		funcs:    []string{"KnownHostsCallback.trustHosts"}},
 	{ns: "Brush", pkgDir: "internal/color/brush", panics: true,
 		structs:     map[string][]string{},
 		appendCalls: map[string]int{"color.PaintWithAttr": 1},
@@ -338,6 +353,8 @@ func (p *trPkg) leanType(e ast.Expr) string {
 			return "GoLine"
 		case "regexp.Regexp":
 			return "GoRe"
+		case "net.Addr":
+			return "GoString" // an address is its `String()` form
 		case "os.File":
 			return "GoString" // an open file is the path it was opened on
 		case "bufio.Reader":
@@ -554,6 +571,7 @@ type trFn struct {
 	resTypes  []ast.Expr        // declared result types
 	mapVars   map[string]bool   // parameters and locals of map type
 	chanVars  map[string]bool   // parameters of channel type (ranging over one yields its elements, not indices)
+	scanCur   map[string]string // scanner variable -> the Lean variable holding the line of the current round
 	okValue   string            // the variable a matched call result is bound to (callStmt -> callBind)
 }
 
@@ -914,6 +932,9 @@ func (f *trFn) stmt1(ind string, s ast.Stmt, next cont) string {
 		}
 		if c, ef := f.effectOf(call); ef != nil {
 			return f.effectBind(ind, c, ef, nil, false, next)
+		}
+		if id, ok := call.Fun.(*ast.Ident); ok && id.Name == "panic" {
+			return f.panicLine(ind, "explicit panic")
 		}
 		if target, val := f.bufWrite(call); target != nil {
 			return f.assignTo(ind, target, val, next)
@@ -2135,6 +2156,18 @@ func hasBreak(body *ast.BlockStmt) bool {
 }
 
 func (f *trFn) forStmt(ind string, st *ast.ForStmt, k cont) string {
+	if sc := f.p.scanLoop(st); sc != "" {
+		// `for scanner.Scan() { … scanner.Text() … }`: the scanner is the list of the lines to come
+		return f.loopOver(ind, f.v(sc), st.Body.List, func() string {
+			f.counter++
+			cur := fmt.Sprintf("_line%d", f.counter)
+			if f.scanCur == nil {
+				f.scanCur = map[string]string{}
+			}
+			f.scanCur[sc] = cur
+			return cur
+		}, k)
+	}
 	if st.Init == nil && st.Post == nil {
 		return f.whileStmt(ind, st, k)
 	}
@@ -2423,6 +2456,11 @@ func (f *trFn) expr(e ast.Expr) string {
 			if sel.Sel.Name == "Match" && len(v.Args) == 1 && !f.isTranslatedMethodCall(v) {
 				if _, isIdent := sel.X.(*ast.Ident); !isIdent || f.p.unit.matchExt == "reMatchRaw" {
 					return "(ext." + f.p.unit.matchExt + " " + f.expr(sel.X) + " " + f.expr(v.Args[0]) + ")"
+				}
+			}
+			if id, isId := sel.X.(*ast.Ident); isId && sel.Sel.Name == "Text" && len(v.Args) == 0 {
+				if cur, ok := f.scanCur[id.Name]; ok {
+					return cur
 				}
 			}
 			switch sel.Sel.Name {
@@ -2832,6 +2870,26 @@ func (p *trPkg) optDeref(e ast.Expr) bool {
 	return false
 }
 
+// scanLoop: `for v.Scan() { … }` over one of the unit's scanners: the scanner's name
+func (p *trPkg) scanLoop(st *ast.ForStmt) string {
+	if st.Init != nil || st.Post != nil || st.Cond == nil {
+		return ""
+	}
+	call, ok := st.Cond.(*ast.CallExpr)
+	if !ok || len(call.Args) != 0 {
+		return ""
+	}
+	sel, ok := call.Fun.(*ast.SelectorExpr)
+	if !ok || sel.Sel.Name != "Scan" {
+		return ""
+	}
+	id, ok := sel.X.(*ast.Ident)
+	if !ok || !contains(p.unit.scanners, id.Name) {
+		return ""
+	}
+	return id.Name
+}
+
 // bodyOf: the body of a translated function or lifted closure
 func (p *trPkg) bodyOf(key string) *ast.BlockStmt {
 	if lit, ok := p.lits[key]; ok {
@@ -2899,6 +2957,9 @@ func (p *trPkg) computeCanPanic() {
 						found = true // makechan: size out of range
 					}
 				}
+				if src(v.Fun) == "panic" {
+					found = true
+				}
 			case *ast.SendStmt:
 				if contains(p.unit.queues, src(v.Chan)) {
 					found = true // may block for ever
@@ -2912,7 +2973,7 @@ func (p *trPkg) computeCanPanic() {
 					found = true
 				}
 			case *ast.ForStmt:
-				if v.Init == nil && v.Post == nil {
+				if v.Init == nil && v.Post == nil && p.scanLoop(v) == "" {
 					found = true // `for cond {…}`: runs on fuel
 				}
 			}
@@ -3110,6 +3171,9 @@ func translateUnit(u trUnit) (out string) {
 			if d.Recv != nil {
 				s.recv = recvTypeName(d.Recv.List[0].Type)
 				_, s.ptrRecv = d.Recv.List[0].Type.(*ast.StarExpr)
+				if s.recv == u.effectOwner && u.effectOwner != "" {
+					s.ptrRecv = true // the history of operations lives in the receiver, whatever its kind
+				}
 			}
 			if d.Type.Results != nil {
 				for _, fl := range d.Type.Results.List {
